@@ -189,6 +189,57 @@ def bayesian_problem_cases(ctx, rnd):
             _eval_all(ctx, post, R, {data_v: vals0[data_v]}, free, "bayesianproblem/r%d" % r, case, rnd)
 
 
+TRACE_CFG = """INIT TraceInit
+NEXT TraceNext
+INVARIANT @@ACCEPT@@
+CHECK_DEADLOCK FALSE
+"""
+
+
+def install_recorder(rec):
+    from cuqiverif.record_joint import install_joint
+    install_joint(rec)
+
+
+def record_repo_tests(tests=("tests/test_joint_distribution.py", "tests/test_density.py", "tests/test_posterior.py",
+                             "tests/test_bayesian_inversion.py"), timeout=2400):
+    import json, os, subprocess, sys
+    from cuqiverif.core import MachineryError
+    from cuqiverif import tlc
+    repo = os.environ.get("CUQIVERIF_REPO", "/repo")
+    os.makedirs(tlc.WORK, exist_ok=True)
+    out = os.path.join(tlc.WORK, "c01_repo_traces_%d.json" % os.getpid())
+    env = dict(os.environ, CUQIPY_VERIF="1", CUQIVERIF_TRACE_OUT=out, CUQIVERIF_RECORD="c01", CUQIVERIF_MAX_EVENTS="400",
+               CUQIVERIF_MAX_TRACES="1500", PYTHONPATH=os.path.join("/verif", "harness") + os.pathsep + repo, TQDM_DISABLE="1")
+    p = subprocess.run([sys.executable, "-m", "pytest", "-q", "-p", "no:cacheprovider", "-p", "cuqiverif.pytest_recorder",
+                        "--timeout=900"] + list(tests), cwd=repo, env=env, stdout=subprocess.PIPE,
+                       stderr=subprocess.STDOUT, text=True, timeout=timeout)
+    if not os.path.exists(out):
+        raise MachineryError("recorder plugin produced no trace file; pytest tail:\n" + "\n".join(p.stdout.splitlines()[-15:]))
+    try:
+        return json.load(open(out))
+    finally:
+        os.remove(out)
+
+
+def validate_lineages(ctx, traces, label):
+    from cuqiverif import trace
+    traces = [t for t in traces if t["events"] and t["events"][0].get("e") == "construct" and len(t["events"]) > 1]
+    if not traces:
+        return []
+    verdicts = trace.validate(ctx, traces, "TraceJointCond", TRACE_CFG, label="c01trace", chunk=400)
+    for v, t in zip(verdicts, traces):
+        ctx.case(("lineage", label, str(t["events"][0]["parents"]), len(t["events"]), str(t["meta"].get("families"))))
+        if v["ok"]:
+            ctx.traces += 1
+        else:
+            nxt = v["next"] or {}
+            ctx.mismatch("lineage/%s/%s" % (nxt.get("e", "end"), nxt.get("cls", nxt.get("outcome", "?"))),
+                         {"kind": "lineage", "label": label, "meta": t["meta"], "construct": t["events"][0], "window": v["window"]},
+                         "recorded conditioning lineage is not a behaviour of JointCond: event %d (%s)" % (v["matched"] + 1, nxt))
+    return [t for v, t in zip(verdicts, traces) if v["ok"]]
+
+
 def run(ctx):
     from cuqiverif.core import MachineryError
     warnings.filterwarnings("ignore")
@@ -213,10 +264,49 @@ def run(ctx):
     if ctx.tier == "quick":
         n3 = rnd.sample(n3, min(len(n3), 700))
     plan = n2 + n3 + sim_cases
-    for i, c in enumerate(plan):
+    # the first replays also run under the lineage recorder (code -> spec direction, TraceJointCond.tla)
+    from cuqiverif import record, trace
+    rec = record.Recorder(max_events_per_trace=400, max_traces=3000)
+    nrec = 40 if ctx.tier == "quick" else 600
+    rnd.shuffle(plan)
+    install_recorder(rec)
+    try:
+        for i, c in enumerate(plan[:nrec]):
+            for r in (0, 1):
+                ctx.case(("cond", c["n"], str(c["par"]), str(c["hist"]), r))
+                replay_case(ctx, c, r, rnd)
+    finally:
+        rec.uninstall()
+    for i, c in enumerate(plan[nrec:]):
         for r in ((0, 1) if (ctx.tier == "thorough" or c["n"] < 4) else (i % 2,)):
             ctx.case(("cond", c["n"], str(c["par"]), str(c["hist"]), r))
             replay_case(ctx, c, r, rnd)
+    good = validate_lineages(ctx, rec.trace_list(), "replays")
+    if ctx.tier == "thorough":
+        rt = record_repo_tests()
+        ctx.observe("repo_test_lineages", len(rt))
+        validate_lineages(ctx, rt, "repo-tests")
+    # binding self-test
+    g0 = next((t for t in good if any(e["e"] == "logd" and e["outcome"] == "value" and e["given"] for e in t["events"]) and
+               any(e["e"] == "condition" for e in t["events"])), None)
+    if g0 is None:
+        raise MachineryError("no accepted lineage with a condition and a logd event")
+
+    def bad_value(ev):
+        i = [j for j, e in enumerate(ev) if e["e"] == "logd" and e["outcome"] == "value"][-1]
+        ev[i]["value_ok"] = False
+
+    def lost_variable(ev):
+        i = [j for j, e in enumerate(ev) if e["e"] == "condition"][0]
+        ev[i]["names"] = ev[i]["names"][1:] if ev[i]["names"] else [1]
+
+    def accepted_malformed(ev):
+        i = [j for j, e in enumerate(ev) if e["e"] == "logd" and e["outcome"] == "value" and e["given"]][-1]
+        ev[i]["given"] = ev[i]["given"][:-1]
+    for nm, mut in (("bad_value", bad_value), ("lost_variable", lost_variable), ("accepted_malformed", accepted_malformed)):
+        if not trace.corrupt_selftest(ctx, g0, "TraceJointCond", TRACE_CFG, mut):
+            raise MachineryError("corrupted lineage (%s) was accepted" % nm)
+    ctx.observe("binding_selftest", "wrong value, lost free variable and accepted incomplete evaluation are rejected")
     bayesian_problem_cases(ctx, rnd)
     shapes = {k for k in ctx.facets if k.startswith("shape/")}
     need = {"shape/Joint", "shape/Posterior", "shape/Distribution", "shape/MultiLik", "shape/ConstJoint"}
